@@ -636,8 +636,12 @@ func (t *Tree) Compile(file string, args []string, out io.Writer) (err error) {
 			t.StructName = n.String()
 			t.StructVariables = n.Front().String()
 		case TypeRule:
+			if defined[n.String()] {
+				/* the rule table and the rule constants would no longer line up */
+				return fmt.Errorf("rule '%v' defined more than once", n)
+			}
+			defined[n.String()] = true
 			if _, ok := t.Rules[n.String()]; !ok {
-				defined[n.String()] = true
 				expression := n.Front()
 				cp := expression.Copy()
 				expression.Init()
